@@ -60,8 +60,12 @@ class C01(Check):
 
     def gen_case(self, rng, i):
         r = rng.random()
-        if r < 0.12:
-            return SC.gen_scenario(rng, reliable_only=True, origins=ORIGINS)
+        if r < 0.18:
+            # reliable channels alone, or sharing the association with partially reliable ones (the oracle
+            # judges the reliable channels only; abandonment next door must not disturb them)
+            if rng.random() < 0.5:
+                return SC.gen_scenario(rng, reliable_only=True, origins=ORIGINS)
+            return SC.gen_scenario(rng, pr=True, origins=ORIGINS, big=(rng.random() < 0.3))
         base = rng.choice(ORIGINS)
         chunks, sent = make_sender_chunks(rng, base)
         if r < 0.75:
